@@ -6,6 +6,24 @@ import FV.Proofs.Producers
   Producers are the executable models of `FV/Model/Producers.lean`; the netlist reader is the model of C04/C05
   (`FV.NL.parseNetlist`, with the STOG construction `stog` and the area tolerance `εA` as parameters: every theorem
   holds for all of them).  Statements are over an arbitrary linearly ordered field `α`.
+
+  Shape of the claims.  Per producer: `reader (producer obj).1 = .ok obj'` with `obj'` spelled out in terms of the source
+  object (same regions / cells / ratios / modules / kinds / shapes / nets / weights), `(producer obj).2 = obj`
+  (producing does not alter the object) and, as a corollary, producing twice gives the same tree.
+  netgen: for every topology and every size at which it is defined — chain, star: every n; ring: n ≥ 3; ring-star:
+  n ≥ 4; one-net: n ≥ 2; grid: columns ≥ 1; H-tree: levels ≥ 1, by induction on the levels with the invariant
+  "every referenced index lies in [first index, next free index)" — `gen_*_accepted` (the reader returns exactly the
+  netlist of the index-level specification) and `gen_*_topology` (that netlist is well formed and is the intended graph).
+
+  OUTSIDE these theorems (exercised on every sample by harness/props/c19.py, not proved):
+  * the text layer (ruamel dump / safe load, `str(float)` inside the string-built netlists);
+  * the geometric self-checks of the die / allocation readers (`Die._check_rectangles`, ground-region derivation,
+    `Allocation._check_no_overlap`): the theorems give "the reader sees exactly the numbers of the source object", so any
+    function of those numbers has the value it had when the source object was built; that ground regions re-derived after
+    a refinement cover the same region is compared exactly by the harness;
+  * the polygon decomposition of FloorSet blocks (`strop_decomposition`, property C15) and the density factor `alpha`
+    are inputs of `FsInst`; hard blocks need `noOverlap εA` of their decomposition as a hypothesis;
+  * for ring-star only pin-level well-formedness is proved, not the absence of parallel nets.
 -/
 namespace FV.C19
 open FV FV.NL FV.Prod
